@@ -396,6 +396,19 @@ func (envs *Manager) CreateEnvironment(workflowPath string, userVars map[string]
 		WithField("level", infologger.IL_Devel).
 		Debug("envman write lock")
 	envs.mu.Lock()
+	// The list of active detectors was taken before the cleanup and the workflow load: another environment may have
+	// been created in the meantime. Check again, atomically with the registration of this environment.
+	for _, otherEnv := range envs.m {
+		if otherEnv.workflow == nil {
+			continue
+		}
+		for det := range otherEnv.GetActiveDetectors() {
+			if _, contains := neededDetectors[det]; contains {
+				envs.mu.Unlock()
+				return env.id, fmt.Errorf("detector %s is already in use", det.String())
+			}
+		}
+	}
 	envs.m[env.id] = env
 	envs.pendingStateChangeCh[env.id] = env.stateChangedCh
 	envs.mu.Unlock()
